@@ -200,7 +200,7 @@ def _site_cases(pred, domains, foreign_decoys):
         for vname, h in host_variants(d):
             for p in PATHS:
                 yield {"kind": "site", "pred": pred, "rest": h + p, "variant": vname}
-            for ui in ("user@", "user:pw@", d + "@", "u:" + d + "@", "john@doe.com:pw@", "a@b@", d + "@x@"):   # urlsplit takes the *last* '@' as the end of the userinfo
+            for ui in ("user@", "user:pw@", d + "@", "u:" + d + "@", "john@doe.com:pw@", "a@b@", d + "@x@", "john:p@ss@", "a@b.org:c@d@", "john:@" + d + "@"):   # urlsplit takes the *last* '@' as the end of the userinfo
                 yield {"kind": "site", "pred": pred, "rest": ui + h + "/abc", "variant": vname, "decoy": "userinfo"}
             for dec in foreign_decoys:
                 yield {"kind": "site", "pred": pred, "rest": h + dec, "variant": vname, "decoy": True}
